@@ -1662,6 +1662,8 @@ impl<'s> Worker<'s> {
                 self.quit_now();
             }
         }
+        #[cfg(ripgrep_verif)]
+        verif::yield_point(self.stack.index, verif::EXIT);
     }
 
     fn run_one(&mut self, mut work: Work) -> WalkState {
@@ -1863,6 +1865,8 @@ impl<'s> Worker<'s> {
                         // CPU waiting, we let the thread sleep for a bit. In
                         // general, this tends to only occur once the search is
                         // approaching termination.
+                        #[cfg(ripgrep_verif)]
+                        verif::yield_point(self.stack.index, verif::SLEEP);
                         let dur = std::time::Duration::from_millis(1);
                         std::thread::sleep(dur);
                     }
@@ -1873,11 +1877,15 @@ impl<'s> Worker<'s> {
 
     /// Indicates that all workers should quit immediately.
     fn quit_now(&self) {
+        #[cfg(ripgrep_verif)]
+        verif::yield_point(self.stack.index, verif::QUIT_NOW);
         self.quit_now.store(true, AtomicOrdering::SeqCst);
     }
 
     /// Returns true if this worker should quit immediately.
     fn is_quit_now(&self) -> bool {
+        #[cfg(ripgrep_verif)]
+        verif::yield_point(self.stack.index, verif::IS_QUIT_NOW);
         self.quit_now.load(AtomicOrdering::SeqCst)
     }
 
@@ -1898,11 +1906,15 @@ impl<'s> Worker<'s> {
 
     /// Deactivates a worker and returns the number of currently active workers.
     fn deactivate_worker(&self) -> usize {
+        #[cfg(ripgrep_verif)]
+        verif::yield_point(self.stack.index, verif::DEACTIVATE);
         self.active_workers.fetch_sub(1, AtomicOrdering::Acquire) - 1
     }
 
     /// Reactivates a worker.
     fn activate_worker(&self) {
+        #[cfg(ripgrep_verif)]
+        verif::yield_point(self.stack.index, verif::ACTIVATE);
         self.active_workers.fetch_add(1, AtomicOrdering::Release);
     }
 }
